@@ -447,4 +447,14 @@ example : fromDictTimestampWithTimezone (.dict (build
     (Swh.C16.minus_zero_iff 0 true).2 ⟨rfl, rfl⟩]
   rfl
 
+/-- **Enum and choice tables**: the value tables the decoders accept are the live ones
+    (`RevisionType`, `MetadataAuthorityType`, and the `in_` validators of the three `status`
+    fields), regenerated from the code on every run. -/
+theorem enum_tables :
+    revisionTypes = Gen.revisionTypes.map ofString ∧
+    authorityTypes = Gen.authorityTypes.map ofString ∧
+    visitStatuses = Gen.visitStatuses.map ofString ∧
+    contentStatuses = Gen.contentStatuses.map ofString ∧
+    skippedStatuses = Gen.skippedStatuses.map ofString := by decide
+
 end Swh.C12
